@@ -439,6 +439,7 @@ type succ struct {
 
 type violRec struct {
 	kind, sig string
+	last      string // name of the last event
 	detail    any
 	plen      int
 }
@@ -513,7 +514,11 @@ func (x *explorer) report(kind string, path []uint16, last int, msg string, deta
 	detail["program_A"] = x.sc.progs[x.sc.progA].text
 	detail["program_B"] = x.sc.progs[x.sc.progB].text
 	detail["sequence"] = x.pathString(path, last)
-	x.viol = append(x.viol, violRec{kind: kind, sig: fmt.Sprintf("C03 kind=%s scenario=%s seq=%s: %s", kind, x.sc.name, x.pathString(path, last), msg), detail: detail, plen: len(path) + 1})
+	lastName := ""
+	if last >= 0 {
+		lastName = x.sc.events[last].name
+	}
+	x.viol = append(x.viol, violRec{kind: kind, last: lastName, sig: fmt.Sprintf("C03 kind=%s scenario=%s seq=%s: %s", kind, x.sc.name, x.pathString(path, last), msg), detail: detail, plen: len(path) + 1})
 }
 
 func verdictString(v *vkern.Verdict) string {
@@ -637,8 +642,8 @@ func (x *explorer) expand(e *kenv, n *node) []succ {
 		for _, b := range t.runs[1:] {
 			if !sameVerdict(a.v, b.v) || !bytes.Equal(ca, b.st.canon(m2.now, nil)) {
 				t.bad = true
-				x.report("parse-path", n.path, t.ei, fmt.Sprintf("the verdict or the resulting map state depends on the header-parsing path: pull mode %d (%s) -> %s ; pull mode %d (%s) -> %s",
-					a.mode, pathName(a.v), verdictString(a.v), b.mode, pathName(b.v), verdictString(b.v)),
+				x.report("parse-path", n.path, t.ei, fmt.Sprintf("the verdict or the resulting map state depends on the header-parsing path: pull mode %d (%s) -> %s ; pull mode %d (%s) -> %s%s",
+					a.mode, pathName(a.v), verdictString(a.v), b.mode, pathName(b.v), verdictString(b.v), stateDiff(a.st, b.st)),
 					map[string]any{"frame": hex.EncodeToString(skb.Frame), "hook": sc.hookName(ev), "maps_path_a": dumpState(a.st), "maps_path_b": dumpState(b.st), "statement": "no verdict depends on which of the two header-parsing paths handled the frame"})
 				break
 			}
@@ -709,6 +714,25 @@ func (x *explorer) expand(e *kenv, n *node) []succ {
 		}
 	}
 	return out
+}
+
+// stateDiff names the first map whose contents differ between two runs of the same frame.
+func stateDiff(a, b *kstate) string {
+	for i, m := range dataMaps {
+		ea, eb := a.maps[i], b.maps[i]
+		if len(ea) != len(eb) {
+			return fmt.Sprintf(" ; %s holds %d entries after the first, %d after the second", m, len(ea), len(eb))
+		}
+		for j := range ea {
+			if !bytes.Equal(ea[j].Key, eb[j].Key) {
+				return fmt.Sprintf(" ; %s keys differ: %x vs %x", m, ea[j].Key, eb[j].Key)
+			}
+			if !bytes.Equal(ea[j].Value, eb[j].Value) {
+				return fmt.Sprintf(" ; %s[%x] = %x vs %x", m, ea[j].Key, ea[j].Value, eb[j].Value)
+			}
+		}
+	}
+	return ""
 }
 
 func pathName(v *vkern.Verdict) string {
